@@ -644,6 +644,12 @@ func (pp *partitionProducer) flushRetryBuffers() {
 		}
 
 		for _, msg := range pp.retryState[pp.highWatermark].buf {
+			// Messages parked while a higher retry level was in flight have not been through
+			// the sequencing step of dispatch yet.
+			if pp.parent.conf.Producer.Idempotent && msg.retries == 0 && msg.flags == 0 && !msg.hasSequence {
+				msg.sequenceNumber, msg.producerEpoch = pp.parent.txnmgr.getAndIncrementSequenceNumber(msg.Topic, msg.Partition)
+				msg.hasSequence = true
+			}
 			verifGate("pp.flush", pp.topic, pp.partition)
 			pp.brokerProducer.input <- msg
 		}
